@@ -200,10 +200,15 @@ def non_contributors(prog, chk):
         good = True
         for x, i, s in b.all_stmts():
             if "lhs" in s and s["lhs"][0] in b.ret_locals and not s["lhs"][1] and s["rv"].get("variant") == "Ok":
-                oks += 1
                 comps = _bbox_components(b, s["rv"]["ops"][0])
+                if not comps:
+                    continue  # the Ok of something else (a spliced helper's `Ok(())`)
+                oks += 1
                 is_none = bool(comps) and all(o1[0] == "rv" and o1[1].get("variant") == "None" for o1 in comps)
                 good = good and is_none
+        if oks == 0:
+            chk.undecided("A15.non-contributors", ty, b.where(), f"<{ty[:-7].lower()}>: no successful exit that carries an Option<BoundingBox> is found in a form this rule reads")
+            continue
         chk.ob(oks >= 1 and good, "A15.non-contributors", ty, b.where(), f"<{ty[:-7].lower()}> returns no bounding box on every successful exit", f"<{ty[:-7].lower()}> can return a bounding box")
     # conditional resets
     for ty, names in (("Container", {"defs", "symbol"}), ("GroupElement", {"symbol"}), ("OtherElement", {"point"})):
